@@ -72,3 +72,26 @@ Theorem C07_pipeline :
          end.
 Proof. exact PipelineRun.pipeline_values. Qed.
 Print Assumptions C07_pipeline.
+
+From YG Require Import LRBase Pipeline Front FrontAlign.
+Close Scope Z_scope.
+Open Scope nat_scope.
+
+(* the action of a production: the reduce function takes the action code of production i from entry i-1 of the rule list of the grammar file; the two lists are aligned (production i+1 is built from entry i), so every production runs the action written next to it *)
+Theorem C07_action_alignment :
+  forall (v : visited) (b : built),
+         build_grammar v = inr b ->
+         length (gi_rules (b_gi b)) = S (length (vs_rules v)) /\
+         (forall (i : nat) (r : vrule),
+          nth_error (vs_rules v) i = Some r ->
+          exists R : rule,
+            nth_error (gi_rules (b_gi b)) (S i) = Some R /\
+            sym_index (b_syms b) (v_lhs r) = Some (lhs R) /\
+            map_opt (sym_index (b_syms b)) (v_rhs r) = Some (rhs R) /\
+            nth_error (b_rule_prec b) (S i) =
+            Some match v_prec r with
+                 | Some n => sym_index (b_syms b) n
+                 | None => None
+                 end).
+Proof. exact FrontAlign.rules_aligned. Qed.
+Print Assumptions C07_action_alignment.
